@@ -42,8 +42,8 @@ contract(RS + "AbstractSummaryReporter.on_scenario", props=P,
                  "implies(not child_status(scenario).has_failed(), len(%s) == old(len(%s)) and len(%s) == old(len(%s)))"
                  % (LST_F, LST_F, LST_E, LST_E),
              "earlier-entries-kept":
-                 "forall(lambda k: implies(0 <= k < old(len(%s)), %s[k] is old(%s)[k])) and "
-                 "forall(lambda k: implies(0 <= k < old(len(%s)), %s[k] is old(%s)[k]))" % (LST_F, LST_F, LST_F, LST_E, LST_E, LST_E),
+                 "forall(lambda k: implies(0 <= k < old(len(%s)), %s[k] is old(%s[k]))) and "
+                 "forall(lambda k: implies(0 <= k < old(len(%s)), %s[k] is old(%s[k])))" % (LST_F, LST_F, LST_F, LST_E, LST_E, LST_E),
          })
 
 # ---------------------------------------------------------------------------------------
